@@ -58,6 +58,8 @@ Ltac unf := cbn [render rtoks render_list rtoks_list render_whens rtoks_whens].
 Ltac qs := rewrite ?q_opc; cbn [q set_wa set_subq set_subc fctx].
 Ltac norm := repeat (rewrite ?flat_opndT, ?flat_app, ?flat_cons, ?flat_nil, ?flat_ptoks, ?flat_alias, ?flat_jtoks, ?flat_one);
              cbn [tok_text]; rewrite ?sapp_assoc, ?sapp_nil_r.
+Ltac dbind := match goal with
+  | |- bind (rmap _ ?X) _ = rmap _ (bind ?X _) => destruct X; cbn [bind rmap]; [|reflexivity] end.
 Ltac leaf := intros; unf; cbn [bind rmap]; rewrite flat_one; reflexivity.
 
 Lemma rtoks_render_all : (forall t, Rt t) /\ (forall l, Rl l) /\ (forall l, Rw l) /\ (forall o, Ro o).
@@ -74,39 +76,21 @@ Proof.
   - (* TStar *) intros tbl c. unf. cbn [rmap]. f_equal. rewrite flat_cons, flat_nil, sapp_nil_r. cbn [tok_text].
     unfold ref_text, qualifier. destruct tbl as [tb|]; [|reflexivity]. destruct (wn c || truthy_ostr (talias tb)); reflexivity.
   - leaf. - leaf. - leaf. - leaf. - leaf. - leaf. - leaf.
-  - (* TNeg *) intros t IH c. unf. rewrite IH. qs.
-    destruct (rtoks (opc SNeg t c) t); cbn [bind rmap]; [|reflexivity]. f_equal. norm. reflexivity.
-  - (* TArith *) intros op l IHl r IHr alias c. unf. rewrite IHl, IHr. qs.
-    destruct (rtoks (opc SArithL l (set_wa c false)) l); cbn [bind rmap]; [|reflexivity].
-    destruct (rtoks (opc SArithR r (set_wa c false)) r); cbn [bind rmap]; [|reflexivity].
+  - (* TNeg *) intros t IH c. unf. rewrite IH. qs. dbind. f_equal. norm. reflexivity.
+  - (* TArith *) intros op l IHl r IHr alias c. unf. rewrite IHl, IHr. qs. dbind. dbind.
     f_equal. destruct (wa c); norm; reflexivity.
-  - (* TBasic *) intros cm l IHl r IHr alias c. unf. rewrite IHl, IHr. qs.
-    destruct (rtoks (opc SCmpL l (set_wa c false)) l); cbn [bind rmap]; [|reflexivity].
-    destruct (rtoks (opc SCmpR r (set_wa c false)) r); cbn [bind rmap]; [|reflexivity].
+  - (* TBasic *) intros cm l IHl r IHr alias c. unf. rewrite IHl, IHr. qs. dbind. dbind.
     f_equal. destruct (wa c); norm; reflexivity.
-  - (* TCplx *) intros bo l IHl r IHr alias c. unf. rewrite IHl, IHr. qs.
-    destruct (rtoks (set_subc c (needs_brackets_x bo (top_bop l))) l); cbn [bind rmap]; [|reflexivity].
-    destruct (rtoks (set_subc c (needs_brackets_x bo (top_bop r))) r); cbn [bind rmap]; [|reflexivity].
+  - (* TCplx *) intros bo l IHl r IHr alias c. unf. rewrite IHl, IHr. qs. dbind. dbind.
+    f_equal. destruct (wa c); norm; reflexivity.
+  - (* TIn *) intros t IHt cont IHc negated alias c. unf. rewrite IHt, IHc. qs. dbind. dbind. f_equal. norm. reflexivity.
+  - (* TBetween *) intros t IHt lo IHlo hi IHhi alias c. unf. rewrite IHt, IHlo, IHhi. qs. dbind. dbind. dbind.
     f_equal. norm. reflexivity.
-  - (* TIn *) intros t IHt cont IHc negated alias c. unf. rewrite IHt, IHc. qs.
-    destruct (rtoks (opc SInTerm t (set_subq c false)) t); cbn [bind rmap]; [|reflexivity].
-    destruct (rtoks (set_subq c true) cont); cbn [bind rmap]; [|reflexivity].
-    f_equal. norm. reflexivity.
-  - (* TBetween *) intros t IHt lo IHlo hi IHhi alias c. unf. rewrite IHt, IHlo, IHhi. qs.
-    destruct (rtoks (opc SBetTerm t c) t); cbn [bind rmap]; [|reflexivity].
-    destruct (rtoks (opc SBetLo lo c) lo); cbn [bind rmap]; [|reflexivity].
-    destruct (rtoks (opc SBetHi hi c) hi); cbn [bind rmap]; [|reflexivity].
-    f_equal. norm. reflexivity.
-  - (* TBitAnd *) intros t IHt v alias c. unf. rewrite IHt.
-    destruct (rtoks c t); cbn [bind rmap]; [|reflexivity]. f_equal. norm. reflexivity.
-  - (* TIsNull *) intros t IHt alias c. unf. rewrite IHt. qs.
-    destruct (rtoks (opc SIsNull t (set_wa c false)) t); cbn [bind rmap]; [|reflexivity]. f_equal. norm. reflexivity.
-  - (* TNotNull *) intros t IHt alias c. unf. rewrite IHt. qs.
-    destruct (rtoks (opc SNotNull t (set_wa c false)) t); cbn [bind rmap]; [|reflexivity]. f_equal. norm. reflexivity.
-  - (* TNot *) intros t IHt alias c. unf. rewrite IHt. qs.
-    destruct (rtoks (set_subc c true) t); cbn [bind rmap]; [|reflexivity]. f_equal. norm. reflexivity.
-  - (* TAll *) intros t IHt alias c. unf. rewrite IHt.
-    destruct (rtoks c t); cbn [bind rmap]; [|reflexivity]. f_equal. norm. reflexivity.
+  - (* TBitAnd *) intros t IHt v alias c. unf. rewrite IHt. qs. dbind. f_equal. norm. reflexivity.
+  - (* TIsNull *) intros t IHt alias c. unf. rewrite IHt. qs. dbind. f_equal. norm. reflexivity.
+  - (* TNotNull *) intros t IHt alias c. unf. rewrite IHt. qs. dbind. f_equal. norm. reflexivity.
+  - (* TNot *) intros t IHt alias c. unf. rewrite IHt. qs. dbind. f_equal. norm. reflexivity.
+  - (* TAll *) intros t IHt alias c. unf. rewrite IHt. qs. dbind. f_equal. norm. reflexivity.
   - (* TEmpty *) intros c. reflexivity.
   - (* TCase *) intros ws IHw els IHe alias c. unf. destruct ws as [|cr v r]; [reflexivity|].
     rewrite IHw. qs. destruct (rtoks_whens (set_wa c false) (WCons cr v r)) as [cs|]; cbn [bind rmap]; [|reflexivity].
@@ -117,10 +101,10 @@ Proof.
   - (* TFunc *) intros name args IHa special alias c. unf. rewrite IHa. qs.
     destruct (rtoks_list (fctx c) args) as [ss|]; cbn [bind rmap]; [|reflexivity].
     f_equal. destruct (wa c); norm; reflexivity.
-  - (* TTuple *) intros vs IHv alias c. unf. rewrite IHv.
-    destruct (rtoks_list c vs) as [ss|]; cbn [bind rmap]; [|reflexivity]. f_equal. norm. reflexivity.
-  - (* TArray *) intros vs IHv alias c. unf. rewrite IHv.
-    destruct (rtoks_list c vs) as [ss|]; cbn [bind rmap]; [|reflexivity]. f_equal.
+  - (* TTuple *) intros vs IHv alias c. unf. rewrite IHv. qs.
+    destruct (rtoks_list (set_wa c false) vs) as [ss|]; cbn [bind rmap]; [|reflexivity]. f_equal. norm. reflexivity.
+  - (* TArray *) intros vs IHv alias c. unf. rewrite IHv. qs.
+    destruct (rtoks_list (set_wa c false) vs) as [ss|]; cbn [bind rmap]; [|reflexivity]. f_equal.
     rewrite flat_alias. f_equal. destruct (is_pg (dia c)).
     + rewrite flat_jtoks. destruct (join "," (map (flat (q c)) ss)) eqn:E.
       * rewrite flat_app, flat_one, flat_jtoks, E. reflexivity.
@@ -226,14 +210,14 @@ Proof.
     destruct (wa c); inversion H; subst; clear H; simp_ok; simp_tt; rewrite A1, A2, B1, B2; split; reflexivity.
   - (* TCplx *) intros bo l IHl r IHr alias c ts H. cbn [rtoks] in H. inv_bind H.
     destruct (IHl _ _ E) as [A1 B1]. destruct (IHr _ _ E0) as [A2 B2]. wns.
-    inversion H; subst; clear H; simp_ok; simp_tt; rewrite A1, A2, B1, B2; split; reflexivity.
+    destruct (wa c); inversion H; subst; clear H; simp_ok; simp_tt; rewrite A1, A2, B1, B2; split; reflexivity.
   - (* TIn *) intros t IHt cont IHc negated alias c ts H. cbn [rtoks] in H. inv_bind H.
     destruct (IHt _ _ E) as [A1 B1]. destruct (IHc _ _ E0) as [A2 B2]. wns.
     inversion H; subst; clear H; simp_ok; simp_tt; rewrite A1, A2, B1, B2; split; reflexivity.
   - (* TBetween *) intros t IHt lo IHlo hi IHhi alias c ts H. cbn [rtoks] in H. inv_bind H.
     destruct (IHt _ _ E) as [A1 B1]. destruct (IHlo _ _ E0) as [A2 B2]. destruct (IHhi _ _ E1) as [A3 B3]. wns.
     inversion H; subst; clear H; simp_ok; simp_tt; rewrite A1, A2, A3, B1, B2, B3; split; reflexivity.
-  - (* TBitAnd *) intros t IHt v alias c ts H. cbn [rtoks] in H. inv_bind H. destruct (IHt _ _ E) as [A1 B1].
+  - (* TBitAnd *) intros t IHt v alias c ts H. cbn [rtoks] in H. inv_bind H. destruct (IHt _ _ E) as [A1 B1]. wns.
     inversion H; subst; clear H; simp_ok; simp_tt; rewrite A1, B1, ?app_nil_r; split; reflexivity.
   - (* TIsNull *) intros t IHt alias c ts H. cbn [rtoks] in H. inv_bind H. destruct (IHt _ _ E) as [A1 B1]. wns.
     inversion H; subst; clear H; simp_ok; simp_tt; rewrite A1, B1, ?app_nil_r; split; reflexivity.
@@ -241,7 +225,7 @@ Proof.
     inversion H; subst; clear H; simp_ok; simp_tt; rewrite A1, B1, ?app_nil_r; split; reflexivity.
   - (* TNot *) intros t IHt alias c ts H. cbn [rtoks] in H. inv_bind H. destruct (IHt _ _ E) as [A1 B1]. wns.
     inversion H; subst; clear H; simp_ok; simp_tt; rewrite A1, B1; split; reflexivity.
-  - (* TAll *) intros t IHt alias c ts H. cbn [rtoks] in H. inv_bind H. destruct (IHt _ _ E) as [A1 B1].
+  - (* TAll *) intros t IHt alias c ts H. cbn [rtoks] in H. inv_bind H. destruct (IHt _ _ E) as [A1 B1]. wns.
     inversion H; subst; clear H; simp_ok; simp_tt; rewrite A1, B1, ?app_nil_r; split; reflexivity.
   - (* TEmpty *) intros c ts H. discriminate H.
   - (* TCase *) intros ws IHw els IHe alias c ts H. cbn [rtoks] in H. destruct ws as [|cr v r]; [discriminate H|].
@@ -254,10 +238,10 @@ Proof.
   - (* TFunc *) intros name args IHa special alias c ts H. cbn [rtoks] in H. inv_bind H. destruct (IHa _ _ E) as [A1 B1]. wns.
     cbn [field_tables]. rewrite <- B1.
     destruct (wa c); inversion H; subst; clear H; simp_ok; simp_tt; rewrite A1, ?app_nil_r; split; reflexivity.
-  - (* TTuple *) intros vs IHv alias c ts H. cbn [rtoks] in H. inv_bind H. destruct (IHv _ _ E) as [A1 B1].
+  - (* TTuple *) intros vs IHv alias c ts H. cbn [rtoks] in H. inv_bind H. destruct (IHv _ _ E) as [A1 B1]. wns.
     cbn [field_tables]. rewrite <- B1.
     inversion H; subst; clear H; simp_ok; simp_tt; rewrite A1, ?app_nil_r; split; reflexivity.
-  - (* TArray *) intros vs IHv alias c ts H. cbn [rtoks] in H. inv_bind H. destruct (IHv _ _ E) as [A1 B1].
+  - (* TArray *) intros vs IHv alias c ts H. cbn [rtoks] in H. inv_bind H. destruct (IHv _ _ E) as [A1 B1]. wns.
     cbn [field_tables]. rewrite <- B1.
     inversion H; subst; clear H. rewrite okl_alias, tt_alias.
     destruct (is_pg (dia c)); [match goal with |- context [flat ?a ?b] => destruct (flat a b) end|];
